@@ -33,7 +33,7 @@ func init() {
 	register(&Rule{Name: "STATS-PAYLOAD-EACH", Floor: 3,
 		Doc: "in every stream method that emits payload stats events, on the projection where a stats handler is installed every successful return passes the event: no further condition (message size, count) can skip it",
 		Run: ruleStatsPayloadEach})
-	register(&Rule{Name: "SEL-INSERT", Floor: 2,
+	register(&Rule{Name: "SEL-INSERT", Floor: 1,
 		Doc: "setRules appends a rule to a selector node only in the arms where the current component is '*' or the selector is exhausted; a named component only descends",
 		Run: ruleSelInsert})
 }
@@ -669,22 +669,23 @@ func ruleSelInsert(r *Run) {
 			n++
 			key := fmt.Sprintf("%s/rule-stored#%d", shortFunc(fn), n)
 			// dominated by tag == "*" or tag == "" where tag is the first result of strings.Cut(selector, ".")
-			good := false
-			for _, g := range guardsOf(w.Instr.Block()) {
+			// reached only when tag == "*" or tag == "" (one arm each, or a merged `case "*", "":`)
+			good := p.guardedInEveryContext(w.Instr.Block(), func(g guardFact) bool {
 				x, y, op, ok := g.cmp()
 				if !ok || op != token.EQL {
-					continue
+					return false
 				}
 				s, isC := constString(y)
 				if !isC || (s != "*" && s != "") {
-					continue
+					return false
 				}
 				if ex, ok := x.(*ssa.Extract); ok && ex.Index == 0 {
 					if c, ok := ex.Tuple.(*ssa.Call); ok && calleeName(c) == "strings.Cut" {
-						good = true
+						return true
 					}
 				}
-			}
+				return false
+			})
 			r.check(good, key, w.Instr.Pos(), "the rule is stored on the node reached when the current component is '*' or the selector is exhausted",
 				"a rule is appended to a selector node outside the arms `component == \"*\"` / `component == \"\"`: a wildcard like pkg.Service.* is stored one level too high and binds sibling services (or every package)")
 		}
